@@ -20,6 +20,10 @@ SELFIES_FRAGS = INDEX + [
 ]
 
 SMILES_FRAGS = [
+    # a bond written twice (ring closure between atoms that are already bonded), stereocentres with more than four
+    # neighbours and a ring bond, labels cut short
+    "C1(C)C1", "C12CCCC12", "S1(=O)(=O)C1", "P123CCCC123", "CC1(F)C1", "C1C1", "C=1C1", "[S@]1(F)(Cl)(Br)", "[P@]1(F)(Cl)(Br)", "[C@]1(F)(Cl)(Br)",
+    "[Fe@]1(F)(F)(F)", "[S@@](F)(Cl)(Br)(I)", "C%1", "C=%1", "C%12CCCCC%",
     "C", "N", "O", "S", "P", "F", "Cl", "Br", "I", "B", "c", "n", "o", "s", "p", "b", "[nH]", "[C@@H]", "[C@H]", "[C@]", "[13CH3]", "[NH4+]",
     "[O-]", "[Fe+3]", "[Fe+++]", "[Cu-3]", "[N+]", "[n+]", "[se]", "[te]", "[as]", "[si]", "[al]", "[Si]", "[H]", "[2H]", "[HH]", "[C:1]",
     "[CH2:12]", "(", ")", "()", "((", "))", "(C)", "(=O)", ".", "..", "-", "=", "#", ":", "/", "\\", "$", "*", "[*]", "->", "<-", "~", "1", "2",
